@@ -131,7 +131,40 @@ pub fn requests(secret: &str) -> Vec<(String, WireReq, String, Cfg)> {
         }
         out.push(found.unwrap_or_else(|| machinery_error("C07: no nonce gives an expected signature of the wanted shape")));
     }
+    // guesses near a signature that is right for a NEAR-MISS of the string to sign (see `alt_base`): the request carries
+    // a timestamp with milliseconds; the guesses are built around the signature over the string to sign whose timestamp
+    // line keeps the milliseconds, resp. over the string to sign followed by a newline
+    for name in ["get-fractional-date:near-the-signature-over-the-millisecond-timestamp-line", "get-fractional-date:near-the-signature-over-the-string-to-sign-plus-newline"] {
+        out.push(mk(name, &|p| {
+            p.instant = refmodel::Instant::new(now.secs, 250_000_000);
+            p.date_text = "20150830T123600.250Z".into();
+        }));
+    }
     out
+}
+
+/// For the request shapes that ask for it: the signature, under the right key, of a near-miss of the string to sign.
+/// The wrong guesses of that shape are built around it (they are wrong for the real string to sign in every position).
+pub fn alt_base(name: &str, wire: &WireReq, cfg: &Cfg, secret: &str) -> Option<String> {
+    let what = name.split_once(':')?.1;
+    let received = wire.as_received().ok()?;
+    let o = refmodel::verify::validate(&received, &cfg.to_ref(), &mut |a| {
+        refmodel::verify::Answer::Key(refmodel::hmac::chain(secret.as_bytes(), &a.date8, a.region.as_bytes(), a.service.as_bytes()).ksigning)
+    });
+    let sts = o.string_to_sign?;
+    let key = refmodel::hmac::chain(secret.as_bytes(), &e2e::base_instant().date8(), b"us-east-1", b"service").ksigning;
+    let text = String::from_utf8_lossy(&sts).to_string();
+    let altered: Vec<u8> = if what.contains("millisecond") {
+        let mut lines: Vec<String> = text.split('\n').map(|l| l.to_string()).collect();
+        if lines.len() < 4 {
+            return None;
+        }
+        lines[1] = "20150830T123600.250Z".into();
+        lines.join("\n").into_bytes()
+    } else {
+        [sts.as_slice(), b"\n"].concat()
+    };
+    Some(refmodel::hex_lower(&refmodel::hmac::hmac_sha256(&key, &altered)))
 }
 
 fn other_same_class(c: u8, salt: usize) -> u8 {
@@ -525,12 +558,13 @@ pub fn tracer_main(args: &[String]) -> i32 {
             _ => None,
         };
     }
+    let vbase: String = alt_base(&name, &wire, &cfg, secret).unwrap_or_else(|| sig.clone());
     let mut wires: Vec<(usize, WireReq)> = Vec::with_capacity(variants.len() + 3);
-    wires.push((64, put_signature(&wire, &sig, &variant(&sig, 64)))); // reference: all wrong
-    wires.push((64, put_signature(&wire, &sig, &variant(&sig, 64)))); // reference again: determinism check
-    wires.push((192, put_signature(&wire, &sig, &variant(&sig, 192)))); // reference of the upper-case family
+    wires.push((64, put_signature(&wire, &sig, &variant(&vbase, 64)))); // reference: all wrong
+    wires.push((64, put_signature(&wire, &sig, &variant(&vbase, 64)))); // reference again: determinism check
+    wires.push((192, put_signature(&wire, &sig, &variant(&vbase, 192)))); // reference of the upper-case family
     for v in &variants {
-        wires.push((*v, put_signature(&wire, &sig, &variant(&sig, *v))));
+        wires.push((*v, put_signature(&wire, &sig, &variant(&vbase, *v))));
     }
     let mut reference: Vec<u64> = Vec::with_capacity(400_000);
     let mut reference_upper: Vec<u64> = Vec::with_capacity(400_000);
@@ -635,7 +669,7 @@ pub fn tracer_main(args: &[String]) -> i32 {
             json!({"request": name, "secret": si, "stepping": if use_ptrace { "ptrace" } else { "trap flag" }, "logger": if debug_logger { "debug" } else { "off" }, "entry": if builder_mode { "validate_signature on a builder-made authenticator" } else if inflight_mode == 1 { "sigv4_validate_request while the correctly signed copy of the request is suspended in its key lookup" } else if inflight_mode == 2 { "sigv4_validate_request while a wrongly signed copy of the request is suspended in its key lookup" } else { "sigv4_validate_request" }, "variant": r.variant, "role": if n == 0 { "reference" } else if n == 1 { "reference-repeat" } else if n == 2 { "reference-upper" } else { "variant" },
                    "steps": r.steps, "hash": format!("{:016x}", r.hash), "first_divergence": r.first_divergence,
                    "rip_reference_offset": format!("{:#x}", r.rip_ref.wrapping_sub(base)), "rip_observed_offset": format!("{:#x}", r.rip_got.wrapping_sub(base)),
-                   "refused": r.refused, "child_code": codes[n], "signature": variant(&sig, r.variant)})
+                   "refused": r.refused, "child_code": codes[n], "signature": variant(&vbase, r.variant)})
         );
     }
     0
@@ -700,7 +734,7 @@ pub fn run(ctx: &Ctx) -> Report {
     }
     // the presented signature occurring twice: every 8th position in quick, all in thorough (both secrets)
     {
-        let vs: Vec<usize> = if thorough { (0..128).collect() } else { vec![0, 13, 26, 39, 52, 63] };
+        let vs: Vec<usize> = if thorough { (0..128).collect() } else { vec![0, 21, 42, 63] };
         for ri in twice_shapes {
             for si in if thorough { vec![0usize, 1] } else { vec![0usize] } {
                 for c in vs.chunks(if thorough { 16 } else { 9 }) {
@@ -722,7 +756,7 @@ pub fn run(ctx: &Ctx) -> Report {
     // the refusal while another validation of the same request (the genuine one / a wrong guess) is suspended in its key
     // provider's future: positions 0, 13, .. in quick, all in thorough
     {
-        let vs: Vec<usize> = if thorough { (0..128).collect() } else { vec![0, 13, 26, 39, 52, 63] };
+        let vs: Vec<usize> = if thorough { (0..128).collect() } else { vec![0, 21, 42, 63] };
         for mode in [3u8, 4] {
             for (si, ri) in if thorough { vec![(0usize, 0usize), (1, 2)] } else { vec![(0usize, 0usize)] } {
                 for c in vs.chunks(if thorough { 16 } else { 9 }) {
@@ -735,8 +769,17 @@ pub fn run(ctx: &Ctx) -> Report {
     // expected signatures of special shape (begin with "00", end in "00", begin with "ff"): the positions next to
     // both ends in quick, all in thorough
     {
-        let vs: Vec<usize> = if thorough { (0..128).collect() } else { vec![0, 1, 2, 3, 61, 62, 63] };
+        let vs: Vec<usize> = if thorough { (0..128).collect() } else { vec![0, 1, 2, 62, 63] };
         for ri in [9usize, 10, 11] {
+            for c in vs.chunks(if thorough { 16 } else { 9 }) {
+                jobs.push((0, ri, c.to_vec(), 0));
+            }
+        }
+    }
+    // guesses near signatures that are right for a near-miss of the string to sign (shapes 12, 13)
+    {
+        let vs: Vec<usize> = if thorough { (0..64).collect() } else { vec![0, 1, 31, 62, 63] };
+        for ri in [12usize, 13] {
             for c in vs.chunks(if thorough { 16 } else { 9 }) {
                 jobs.push((0, ri, c.to_vec(), 0));
             }
@@ -848,7 +891,7 @@ pub fn run(ctx: &Ctx) -> Report {
     Report {
         stats: st,
         rule: format!(
-            "for each of {} (request, key) groups ({}): wrong signatures of the correct length — only position p wrong for every p in 0..63{} — substituted within the character's class (digit->digit, letter->letter), in lower case and (every 8th position in quick, all in thorough) with the letters in upper case, each family compared with its own all-wrong reference; pairs of wrong characters 8 (or a multiple of 8) positions apart that differ from the right ones by the same bit mask (9 pairs in quick; every pair at distances 8..56, 1 and 7 in thorough); the lower-case family is traced again with a logger installed at Debug level that formats every record; six further request shapes — three carry the presented signature twice (a repeated X-Amz-Signature parameter, a repeated Signature= field, a stray X-Amz-Signature query parameter next to header authentication), three vary the request (Host with a port; session token, twelve more signed headers and a repeated query parameter; folded form body behind an absolute-form target; positions 0, 13, 26, 39, 52, 63 in quick, all positions and both secrets in thorough); three more requests carry a nonce chosen so that the signature the server computes begins with '00', ends in '00' or begins with 'ff' (positions 0-3 and 61-63 in quick, all in thorough); the refusal is also traced on an authenticator assembled by hand through the unstable builder with validate_signature called directly, and while another validation of the very same request — the correctly signed one, or another wrong guess — is suspended in its key provider's future (polled until parked before the trace starts, still parked after it); each is validated in a forked child of a warmed-up tracer (the genuine request accepted once, then 14 wrong signatures refused for the same access key) of a single-threaded tracer (ship-profile build, logger off unless stated, byte-wise early-exit memcmp/bcmp linked in) and single-stepped (the child sets the processor's trap flag around the call and a SIGTRAP handler sees every instruction; a ptrace stepper is kept as a fallback, VH_C07_PTRACE=1) from just before to just after sigv4_validate_request; every trace must have the same length and the same RIP-sequence hash as the group's reference trace (all 64 characters wrong), which is itself traced twice to prove the apparatus deterministic. states = distinct (group, trace hash); transitions = machine instructions stepped",
+            "for each of {} (request, key) groups ({}): wrong signatures of the correct length — only position p wrong for every p in 0..63{} — substituted within the character's class (digit->digit, letter->letter), in lower case and (every 8th position in quick, all in thorough) with the letters in upper case, each family compared with its own all-wrong reference; pairs of wrong characters 8 (or a multiple of 8) positions apart that differ from the right ones by the same bit mask (9 pairs in quick; every pair at distances 8..56, 1 and 7 in thorough); the lower-case family is traced again with a logger installed at Debug level that formats every record; six further request shapes — three carry the presented signature twice (a repeated X-Amz-Signature parameter, a repeated Signature= field, a stray X-Amz-Signature query parameter next to header authentication), three vary the request (Host with a port; session token, twelve more signed headers and a repeated query parameter; folded form body behind an absolute-form target; positions 0, 21, 42, 63 in quick, all positions and both secrets in thorough); two requests with a millisecond timestamp are refused for guesses built around the signature that is right — under the right key — for a near-miss of the string to sign (timestamp line keeping the milliseconds; string to sign followed by a newline); three more requests carry a nonce chosen so that the signature the server computes begins with '00', ends in '00' or begins with 'ff' (positions 0-2, 62, 63 in quick, all in thorough); the refusal is also traced on an authenticator assembled by hand through the unstable builder with validate_signature called directly, and while another validation of the very same request — the correctly signed one, or another wrong guess — is suspended in its key provider's future (polled until parked before the trace starts, still parked after it); each is validated in a forked child of a warmed-up tracer (the genuine request accepted once, then 14 wrong signatures refused for the same access key) of a single-threaded tracer (ship-profile build, logger off unless stated, byte-wise early-exit memcmp/bcmp linked in) and single-stepped (the child sets the processor's trap flag around the call and a SIGTRAP handler sees every instruction; a ptrace stepper is kept as a fallback, VH_C07_PTRACE=1) from just before to just after sigv4_validate_request; every trace must have the same length and the same RIP-sequence hash as the group's reference trace (all 64 characters wrong), which is itself traced twice to prove the apparatus deterministic. states = distinct (group, trace hash); transitions = machine instructions stepped",
             groups.len(),
             if thorough { "GET vanilla, POST body, query carrier x 2 secrets" } else { "GET vanilla, first secret" },
             if thorough { ", and positions p..63 all wrong for every p" } else { "" }
